@@ -150,20 +150,28 @@ ROUTE_OPTS = [("html", True), ("html", False), ("typographer", True), ("breaks",
               ("langPrefix", "x-"), ("quotes", "«»‹›"), ("maxNesting", 2), ("inline_definitions", True), ("store_labels", True)]
 
 
+# attribute access is documented for the nine core options only (OptionsDict docstring); store_labels and
+# inline_definitions have the constructor and item routes
+ATTR_OPTIONS = {"maxNesting", "html", "linkify", "typographer", "quotes", "xhtmlOut", "breaks", "langPrefix", "highlight"}
+
+
 def part4(preset, src, k, v):
     from markdown_it import MarkdownIt
     a = MarkdownIt(preset, {k: v, "linkify": False})
     b = MarkdownIt(preset, {"linkify": False})
     b.options[k] = v
-    c = MarkdownIt(preset, {"linkify": False})
-    setattr(c.options, k, v)
+    routes = [a, b]
+    if k in ATTR_OPTIONS:
+        c = MarkdownIt(preset, {"linkify": False})
+        setattr(c.options, k, v)
+        routes.append(c)
     res = []
-    for md in (a, b, c):
+    for md in routes:
         try:
             res.append((dump(guarded(md.parse, src)), guarded(md.render, src), md.options[k], getattr(md.options, k, None), md.options.get(k)))
         except Exception as e:  # noqa: BLE001
             res.append(("exc", type(e).__name__))
-    if not (res[0] == res[1] == res[2]):
+    if any(r != res[0] for r in res):
         which = "item assignment" if res[0] != res[1] else "attribute assignment"
         return {"what": f"option {k}={v!r} set by {which} behaves differently from the constructor route", "preset": preset}
     return None
